@@ -183,6 +183,7 @@ func createCompiledRouteHandler(route *ast.Route, bytecode []byte, wsHub *websoc
 		}
 
 		// Parse and inject request body as 'input' for POST/PUT/PATCH requests
+		inputObject := true
 		if ctx.Request.Method == "POST" || ctx.Request.Method == "PUT" || ctx.Request.Method == "PATCH" {
 			contentType := ctx.Request.Header.Get("Content-Type")
 			shouldParseJSON := contentType == "" ||
@@ -200,20 +201,29 @@ func createCompiledRouteHandler(route *ast.Route, bytecode []byte, wsHub *websoc
 					// interpreter path does. Without this a compiled route
 					// accepts any body at all: `< input: NewUser` was enforced
 					// only when a provider injection forced interpreter mode.
+					bodyMap = applyCompiledInputDefaults(route, bodyMap)
 					if err := validateCompiledInput(route, bodyMap); err != nil {
 						ctx.Request.Body.Close()
 						return sendClientError(ctx, err.Error())
 					}
 					vmInstance.SetLocal("input", interfaceToValue(bodyMap))
 				} else {
+					inputObject = false
 					vmInstance.SetLocal("input", vm.NullValue{})
 				}
 				ctx.Request.Body.Close()
 			} else {
+				inputObject = false
 				vmInstance.SetLocal("input", vm.NullValue{})
 			}
 		} else {
+			inputObject = false
 			vmInstance.SetLocal("input", vm.NullValue{})
+		}
+		// A declared input type with required fields cannot be satisfied by an
+		// absent body or one that is not a JSON object (interpreter.go does the same).
+		if !inputObject && compiledInputRequiresObject(route) {
+			return sendClientError(ctx, "input validation failed: request body must be a JSON object")
 		}
 
 		// Inject request headers as 'headers' object. Keys use Go's
@@ -822,6 +832,51 @@ func validateCompiledInput(route *ast.Route, body map[string]interface{}) error 
 		return fmt.Errorf("input validation failed: %v", err)
 	}
 	return nil
+}
+
+// compiledInputTypeDef returns the type definition behind `< input: T`, if any.
+func compiledInputTypeDef(route *ast.Route) (ast.TypeDef, bool) {
+	if route.InputType == nil {
+		return ast.TypeDef{}, false
+	}
+	named, ok := route.InputType.(ast.NamedType)
+	if !ok {
+		return ast.TypeDef{}, false
+	}
+	typeDef, exists := compiledTypeDefs[named.Name]
+	return typeDef, exists
+}
+
+// compiledInputRequiresObject reports whether the declared input type has a
+// required field without a default.
+func compiledInputRequiresObject(route *ast.Route) bool {
+	typeDef, ok := compiledInputTypeDef(route)
+	return ok && interpreter.RequiresObject(typeDef)
+}
+
+// applyCompiledInputDefaults fills in literal defaults for fields the body
+// leaves out, as the interpreter's ApplyTypeDefaults does. Present fields,
+// including explicit nulls, are left alone.
+func applyCompiledInputDefaults(route *ast.Route, body map[string]interface{}) map[string]interface{} {
+	typeDef, ok := compiledInputTypeDef(route)
+	if !ok {
+		return body
+	}
+	result := make(map[string]interface{}, len(body))
+	for k, v := range body {
+		result[k] = v
+	}
+	for _, field := range typeDef.Fields {
+		if _, present := result[field.Name]; present || field.Default == nil {
+			continue
+		}
+		if val, isLiteral := evalLiteralExpr(field.Default); isLiteral {
+			result[field.Name] = val
+		} else if arr, isArray := field.Default.(ast.ArrayExpr); isArray && len(arr.Elements) == 0 {
+			result[field.Name] = []interface{}{}
+		}
+	}
+	return result
 }
 
 // sendClientError reports a caller mistake with a 4xx, distinct from the
